@@ -8,6 +8,81 @@ from .state import State, Unsupported, fresh, I
 
 
 class HeapMixin:
+    # ---------------------------------------------------------------- smart select
+    def qf_pc(self, st: State):
+        """Quantifier-free part of the path condition (cached incrementally on the state)."""
+        cache = st.ghost.get("__qfpc__")
+        if cache is None or cache[0] > len(st.pc) or (cache[0] and cache[2] is not st.pc[cache[0] - 1]):
+            cache = (0, [], None)
+        n, qf, _ = cache
+        if n < len(st.pc):
+            from .solve import _has_quant
+
+            qf = list(qf)
+            for a in st.pc[n:]:
+                if not _has_quant(a):
+                    qf.append(a)
+            st.ghost["__qfpc__"] = (len(st.pc), qf, st.pc[-1])
+        return qf
+
+    def proves(self, st: State, c) -> bool:
+        """Cheap entailment test pc |= c using only quantifier-free facts (sound: fewer assumptions)."""
+        cs = z3.simplify(c)
+        if z3.is_true(cs):
+            return True
+        if z3.is_false(cs):
+            return False
+        key = cs.get_id()
+        memo = st.ghost.get("__proved__")
+        if memo is None:
+            memo = st.ghost["__proved__"] = {}
+        hit = memo.get(key)
+        if hit is not None and (hit[0] or hit[1] == len(st.pc)):
+            return hit[0]
+        s = z3.Solver()
+        s.set("timeout", 150)
+        s.add(*self.qf_pc(st))
+        s.add(z3.Not(cs))
+        self.n_alias_queries = getattr(self, "n_alias_queries", 0) + 1
+        r = s.check() == z3.unsat
+        memo = dict(memo)
+        memo[key] = (r, len(st.pc), cs)  # cs pinned: z3 recycles ids of dead terms
+        st.ghost["__proved__"] = memo
+        return r
+
+    def sel(self, st: State, arr, idx):
+        """Select with store/lambda layers peeled off whenever the path condition decides the aliasing."""
+        if getattr(self, "plain_select", False):
+            return arr[idx]
+        for _ in range(64):
+            if z3.is_store(arr):
+                A, x, v = arr.children()
+                if x.eq(idx):
+                    return v
+                if self.proves(st, x != idx):
+                    arr = A
+                    continue
+                if self.proves(st, x == idx):
+                    return v
+                break
+            if z3.is_quantifier(arr) and arr.is_lambda() and arr.num_vars() == 1:
+                body = z3.substitute_vars(arr.body(), idx)
+                if z3.is_app_of(body, z3.Z3_OP_ITE):
+                    c, X, Y = body.children()
+                    if self.proves(st, c):
+                        body = X
+                    elif self.proves(st, z3.Not(c)):
+                        body = Y
+                    else:
+                        break
+                if z3.is_select(body) and body.arg(1).eq(idx):
+                    arr = body.arg(0)
+                    continue
+                if z3.is_select(body):
+                    return self.sel(st, body.arg(0), body.arg(1))
+                return body
+            break
+        return arr[idx]
     # ---------------------------------------------------------------- conversions
     def to_term(self, v: V, kind: Kind):
         """z3 term of sort kind.sort() for storing v into a heap cell of that kind."""
@@ -83,7 +158,7 @@ class HeapMixin:
     # ---------------------------------------------------------------- ghost flags
     def ghost_flag(self, st, a, name):
         arr = self.H.fld_arr(st, "__" + name, z3.BoolSort())
-        return arr[a]
+        return self.sel(st, arr, a)
 
     def set_ghost_flag(self, st, a, name, val):
         arr = self.H.fld_arr(st, "__" + name, z3.BoolSort())
@@ -97,34 +172,72 @@ class HeapMixin:
         return t.elem
 
     def llen(self, st: State, v: V):
-        t = self.H.len_arr(st)[v.term]
-        if not getattr(st, "spec", False):
-            c = t >= 0
-            if not any(c.eq(x) for x in st.pc[-8:]):
-                st.assume(c)
+        t = self.sel(st, self.H.len_arr(st), v.term)
+        c = t >= 0
+        if getattr(st, "spec", False):
+            self.add_fact(st, c)
+        elif not any(c.eq(x) for x in st.pc[-8:]):
+            st.assume(c)
         return t
 
     def larr(self, st: State, v: V):
         ek = self.elem_kind(v)
-        return self.H.el_arr(st, ek.sort())[v.term]
+        return self.sel(st, self.H.el_arr(st, ek.sort()), v.term)
 
     def lget(self, st: State, v: V, i) -> V:
         ek = self.elem_kind(v)
-        val = self.from_term(ek, self.larr(st, v)[i])
+        val = self.from_term(ek, self.sel(st, self.larr(st, v), i))
         self.assume_wf(st, val)
+        self.assume_entry_wf(st, ek, self.H.n_el(ek.sort()), v.term, i)
+        d = getattr(v.kind.target, "keys_of", None)
+        if d is not None:
+            # instance of the dict representation invariant at this access
+            n = self.sel(st, self.H.len_arr(st), v.term)
+            kt = self.sel(st, self.larr(st, v), i)
+            pos = z3.Function(f"kpos_{ek.name}", I, ek.sort(), I)
+            self.add_fact(st, z3.Implies(z3.And(0 <= i, i < n), z3.And(self.sel(st, self.sel(st, self.H.dom_arr(st, ek.sort()), d.term), kt), pos(d.term, kt) == i)), kt)
         return val
+
+    def add_fact(self, st: State, fact, trigger=None):
+        """A valid instance of a heap invariant.  In code mode it is assumed; in spec mode it is queued so that
+        the enclosing quantifier (if the instance mentions its bound variable) can carry it."""
+        if getattr(st, "spec", False):
+            st.ghost.setdefault("__facts__", []).append((fact, trigger))
+        else:
+            st.assume(fact)
+
+    def key_instance(self, st: State, d: V, key_t):
+        k = d.kind.target.k
+        kl_addr = self.sel(st, self.H.dkeys_arr(st), d.term)
+        n = self.sel(st, self.H.len_arr(st), kl_addr)
+        arr = self.sel(st, self.H.el_arr(st, k.sort()), kl_addr)
+        pos = z3.Function(f"kpos_{k.name}", I, k.sort(), I)
+        p = pos(d.term, key_t)
+        dm = self.sel(st, self.sel(st, self.H.dom_arr(st, k.sort()), d.term), key_t)
+        self.add_fact(st, z3.Implies(dm, z3.And(0 <= p, p < n, self.sel(st, arr, p) == key_t)), dm)
+
+    def assume_entry_wf(self, st: State, kind: Kind, arrname: str, addr, idx=None):
+        """Instance of the entry-heap invariant: a reference stored (at entry) in an object that existed at
+        entry points to an object that existed at entry."""
+        if not isinstance(kind, Ref):
+            return
+        base = self.H.base.get(arrname)
+        if base is None:
+            return
+        cell = base[addr] if idx is None else base[addr][idx]
+        self.add_fact(st, z3.Implies(addr < self.top0, z3.And(cell >= 0, cell < self.top0)))
 
     def assume_wf(self, st: State, val: V):
         """Type invariant of values read from the heap: references point to allocated objects."""
-        if getattr(st, "spec", False):
-            return
         if isinstance(val.kind, Ref):
-            st.assume(self.ref_wf(st, val))
+            self.add_fact(st, self.ref_wf(st, val))
+            if getattr(st, "spec", False):
+                return
             if isinstance(val.kind.target, DictT) and val.kind.target.k is not None:
                 key = (val.term.get_id(), st.heap.get("len", self.H.base.get("len")).get_id() if ("len" in st.heap or "len" in self.H.base) else 0)
-                seen = st.ghost.setdefault("__dictwf__", set())
+                seen = st.ghost.setdefault("__dictwf__", {})
                 if key not in seen:
-                    st.ghost["__dictwf__"] = seen | {key}
+                    st.ghost["__dictwf__"] = {**seen, key: val.term}
                     st.assume(z3.Implies(val.term != 0, self.dict_wf(st, val)))
         elif isinstance(val.kind, Tup):
             for x in val.term:
@@ -152,7 +265,7 @@ class HeapMixin:
         k = v.kind
         lo = 0 if k.optional else 1
         conj = [v.term >= lo, v.term < top]
-        tag = self.cls_arr(st)[v.term]
+        tag = self.sel(st, self.cls_arr(st), v.term)
         t = k.target
         if isinstance(t, ListT):
             c = tag == self.container_tag(t)
@@ -272,19 +385,25 @@ class HeapMixin:
 
     def dkeys(self, st: State, d: V) -> V:
         k = d.kind.target.k
-        kl = V(Ref(ListT(k)), self.H.dkeys_arr(st)[d.term])
-        if not getattr(st, "spec", False):
-            st.assume(self.ref_wf(st, kl))
+        lt = ListT(k)
+        lt.keys_of = d
+        kl = V(Ref(lt), self.sel(st, self.H.dkeys_arr(st), d.term))
+        self.add_fact(st, self.ref_wf(st, kl))
+        self.assume_entry_wf(st, kl.kind, "dkeys", d.term)
         return kl
 
     def dhas(self, st: State, d: V, key: V):
         k, _ = self.dict_kinds(d)
-        return self.H.dom_arr(st, k.sort())[d.term][self.to_term(key, k)]
+        kt = self.to_term(key, k)
+        self.key_instance(st, d, kt)
+        return self.sel(st, self.sel(st, self.H.dom_arr(st, k.sort()), d.term), kt)
 
     def dget(self, st: State, d: V, key: V) -> V:
         k, vk = self.dict_kinds(d)
-        val = self.from_term(vk, self.H.map_arr(st, k.sort(), vk.sort())[d.term][self.to_term(key, k)])
+        self.key_instance(st, d, self.to_term(key, k))
+        val = self.from_term(vk, self.sel(st, self.sel(st, self.H.map_arr(st, k.sort(), vk.sort()), d.term), self.to_term(key, k)))
         self.assume_wf(st, val)
+        self.assume_entry_wf(st, vk, self.H.n_map(k.sort(), vk.sort()), d.term, self.to_term(key, k))
         return val
 
     def dset(self, st: State, d: V, key: V, val: V, node=None):
@@ -320,19 +439,30 @@ class HeapMixin:
         """Representation invariant linking a dict's domain with its ghost key list (assumed for inputs,
         maintained by dset): keys are distinct and dom(k) <=> k occurs in the key list."""
         k, _ = self.dict_kinds(d)
-        kl = V(Ref(ListT(k)), self.H.dkeys_arr(st)[d.term])
-        n = self.H.len_arr(st)[kl.term]
-        arr = self.H.el_arr(st, k.sort())[kl.term]
-        dom = self.H.dom_arr(st, k.sort())[d.term]
+        kl = V(Ref(ListT(k)), self.sel(st, self.H.dkeys_arr(st), d.term))
+        n = self.sel(st, self.H.len_arr(st), kl.term)
+        arr = self.sel(st, self.H.el_arr(st, k.sort()), kl.term)
+        dom = self.sel(st, self.H.dom_arr(st, k.sort()), d.term)
         i, j = z3.Ints("wf_i wf_j")
         kk = z3.Const("wf_k", k.sort())
         pos = z3.Function(f"kpos_{k.name}", I, k.sort(), I)
-        return z3.And(
-            n >= 0,
-            kl.term >= 1,
-            z3.ForAll([i], z3.Implies(z3.And(0 <= i, i < n), z3.And(dom[arr[i]], pos(d.term, arr[i]) == i))),
-            z3.ForAll([kk], z3.Implies(dom[kk], z3.And(0 <= pos(d.term, kk), pos(d.term, kk) < n, arr[pos(d.term, kk)] == kk))),
-        )
+        b1 = z3.Implies(z3.And(0 <= i, i < n), z3.And(dom[arr[i]], pos(d.term, arr[i]) == i))
+        b2 = z3.Implies(dom[kk], z3.And(0 <= pos(d.term, kk), pos(d.term, kk) < n, arr[pos(d.term, kk)] == kk))
+        def pat_ok(t):
+            todo = [t]
+            while todo:
+                x = todo.pop()
+                if z3.is_quantifier(x):
+                    return False
+                if z3.is_app(x) and x.decl().kind() in (z3.Z3_OP_ITE, z3.Z3_OP_AND, z3.Z3_OP_OR, z3.Z3_OP_NOT, z3.Z3_OP_EQ, z3.Z3_OP_LE, z3.Z3_OP_GE, z3.Z3_OP_LT, z3.Z3_OP_GT):
+                    return False
+                todo.extend(x.children())
+            return True
+
+        q1 = z3.ForAll([i], b1, patterns=[arr[i]]) if pat_ok(arr[i]) else z3.ForAll([i], b1)
+        pats = [p_ for p_ in (pos(d.term, kk), dom[kk]) if pat_ok(p_)]
+        q2 = z3.ForAll([kk], b2, patterns=pats) if pats else z3.ForAll([kk], b2)
+        return z3.And(n >= 0, kl.term >= 1, q1, q2)
 
     # ---------------------------------------------------------------- object fields
     def field_kind(self, cls: str, f: str) -> Kind | None:
@@ -346,8 +476,9 @@ class HeapMixin:
             raise Unsupported(f"function-valued field {f}")
         if kind == NONE:
             return V(NONE, None)
-        val = self.from_term(kind, self.H.fld_arr(st, f, kind.sort())[obj.term])
+        val = self.from_term(kind, self.sel(st, self.H.fld_arr(st, f, kind.sort()), obj.term))
         self.assume_wf(st, val)
+        self.assume_entry_wf(st, kind, self.H.n_fld(f, kind.sort()), obj.term)
         return val
 
     def fset(self, st: State, obj: V, f: str, kind: Kind, val: V, node=None, ghost=False):
